@@ -29,12 +29,16 @@ func main() {
 		verbose   = flag.Bool("v", false, "print every obligation")
 		listP     = flag.Bool("list-properties", false, "print registered properties as JSON")
 		crossB    = flag.String("cross-benign", "", "self-test: run benign variants (all, or those whose name contains the value) against ALL properties; exit 1 if any fires")
+		scratchC  = flag.Bool("scratch-cache", false, "use a hard-link clone of the Go build cache that is removed on exit (for analysing scratch copies of the tree)")
 		genA      = flag.String("gen-anchors", "", "write function fingerprints of the current tree to this file (run on the pinned tree only)")
 		listS     = flag.Bool("list-stale", false, "debug: list stale-read lint hits")
 		listW     = flag.Bool("list-writers", false, "debug: list controller-runtime writer call sites")
 		explain   = flag.String("explain", "", "replay: print the violated obligations recorded in this evidence file, then re-run")
 	)
 	flag.Parse()
+	if *scratchC {
+		useScratchGoCache(*repo)
+	}
 	start := time.Now()
 	if *listP {
 		type pj struct {
@@ -86,7 +90,8 @@ func main() {
 		printEvidenceViolations(*explain)
 	}
 	if *crossB != "" {
-		os.Exit(runCrossBenign(*repo, *verifDir, *crossB))
+		useScratchGoCache(*repo)
+		osExit(runCrossBenign(*repo, *verifDir, *crossB))
 	}
 
 	var ids []string
@@ -97,14 +102,14 @@ func main() {
 		for _, id := range strings.Split(*propFlag, ",") {
 			if properties[id] == nil {
 				fmt.Fprintf(os.Stderr, "unknown property %q (have %v)\n", id, sortedPropIDs())
-				os.Exit(2)
+				osExit(2)
 			}
 			ids = append(ids, id)
 		}
 	case *dump != "", *listW, *listS, *crossB != "", *genA != "":
 	default:
 		fmt.Fprintln(os.Stderr, "usage: pkocheck -property <id|all> [-tier quick|thorough]")
-		os.Exit(2)
+		osExit(2)
 	}
 
 	var overlay map[string][]byte
@@ -145,18 +150,18 @@ func main() {
 	if err != nil {
 		if *expect != "" || *expectOK {
 			fmt.Printf("SELFTEST not-applicable: %v\n", firstLine(err.Error()))
-			os.Exit(3)
+			osExit(3)
 		}
 		fatal(ids, *evDir, "load-failure: %v", err)
 	}
 	if *genA != "" {
 		if err := genAnchors(prog, *genA); err != nil {
 			fmt.Fprintln(os.Stderr, err)
-			os.Exit(2)
+			osExit(2)
 		}
 		if err := genDecls(prog, filepath.Join(filepath.Dir(*genA), "decls.json")); err != nil {
 			fmt.Fprintln(os.Stderr, err)
-			os.Exit(2)
+			osExit(2)
 		}
 		return
 	}
@@ -198,12 +203,17 @@ func main() {
 	}
 
 	exit := 0
+	scratchOn := *scratchC
 	for _, id := range ids {
 		t0 := time.Now()
 		prop := properties[id]
 		res := runProperty(prog, prop, known, *tier)
 		extra := map[string]any{}
 		if *tier == "thorough" && !*noMutants && *expect == "" && !*expectOK && overlay == nil {
+			if !scratchOn {
+				useScratchGoCache(*repo)
+				scratchOn = true
+			}
 			mres := runMutants(*repo, *verifDir, id)
 			extra["mutants"] = mres
 			for _, m := range mres.Failures {
@@ -234,7 +244,7 @@ func main() {
 			continue
 		}
 		if *expect != "" {
-			os.Exit(selfTestVerdict(res, *expect, *expectOK))
+			osExit(selfTestVerdict(res, *expect, *expectOK))
 		}
 		report(prog, res, evPath, *verbose)
 		if len(res.Violations) > 0 {
@@ -244,7 +254,7 @@ func main() {
 	if *expectOK && exit == 0 {
 		fmt.Println("SELFTEST silent")
 	}
-	os.Exit(exit)
+	osExit(exit)
 }
 
 func flagSet(name string) bool {
@@ -327,7 +337,7 @@ func fatal(ids []string, evDir string, format string, a ...any) {
 	msg := fmt.Sprintf(format, a...)
 	fmt.Fprintln(os.Stderr, "pkocheck: "+msg)
 	if len(ids) == 0 {
-		os.Exit(2)
+		osExit(2)
 	}
 	for _, id := range ids {
 		evPath := filepath.Join(evDir, id+".json")
@@ -339,7 +349,7 @@ func fatal(ids []string, evDir string, format string, a ...any) {
 		_ = os.WriteFile(evPath, b, 0o644)
 		fmt.Printf("VIOLATION property=%s replay=%s reason=%s\n", id, evPath, firstLine(msg))
 	}
-	os.Exit(1)
+	osExit(1)
 }
 
 func selfTestVerdict(res *Result, expect string, expectClean bool) int {
